@@ -278,39 +278,47 @@ def check_hashclient(res, tier, rng):
     """the server actually contacted is the rule's winner; equivalent spellings agree"""
     from vk.fakenet import FakeNet
     import pymemcache.client.hash as hashmod
-    spell_sets = [
-        [("h1", 11211), ("h2", 11211), ("h3", 11212)],
-        ["h1:11211", "h2:11211", "h3:11212"],
-        ["h1", "h2", ("h3", 11212)],
-        [("h3", 11212), "h2", "h1:11211"],
-    ]
     keys = corpus(300 if tier == "quick" else 3000, rng, latin1_only=True)
     keys = [k for k in keys if refs.key_legal(k, True)[0] and k]
-    results = []
-    for spelling in spell_sets:
-        net = FakeNet()
-        servers = {}
-        for host, port in (("h1", 11211), ("h2", 11211), ("h3", 11212)):
-            servers["%s:%d" % (host, port)] = net.add_server(host, port)
-        hc = hashmod.HashClient(spelling, socket_module=net, allow_unicode_keys=True)
-        placed = {}
-        for k in keys:
-            before = {n: len(s.cmdlog) for n, s in servers.items()}
-            hc.get(k)
-            hit = [n for n, s in servers.items() if len(s.cmdlog) > before[n]]
-            placed[k] = hit
-            exp = refs.rendezvous_ref(list(servers), k)
-            res.count("contacts_vs_rule")
-            if exp is not NotImplemented and hit != [exp]:
-                res.violation("contacted-server-is-not-the-winner",
-                              "HashClient(%r).get(%r) contacted %r, rule says %r" % (spelling, k, hit, exp), ("hc", spelling, k))
-        results.append(placed)
-        res.case(("hc", repr(spelling)))
-    for sp, r in zip(spell_sets[1:], results[1:]):
-        diff = [k for k in keys if r[k] != results[0][k]]
-        if diff:
-            res.violation("spelling-dependent-placement", "spelling %r places %r on %r, tuples place it on %r"
-                          % (sp, diff[0], r[diff[0]], results[0][diff[0]]), ("hc-spelling", sp, diff[0]))
+    # plain names, and names with capitals / dots / dashes (a host name is taken as it is written: the node is named
+    # '<host>:<port>' with exactly those characters, whatever the spelling of the server spec)
+    for h1, h2, h3 in (("h1", "h2", "h3"), ("Cache-A", "cache-b.Example.COM", "H3")):
+        spell_sets = [
+            [(h1, 11211), (h2, 11211), (h3, 11212)],
+            ["%s:11211" % h1, "%s:11211" % h2, "%s:11212" % h3],
+            [h1, h2, (h3, 11212)],
+            [(h3, 11212), h2, "%s:11211" % h1],
+        ]
+        results = []
+        for spelling in spell_sets:
+            net = FakeNet()
+            servers = {}
+            for host, port in ((h1, 11211), (h2, 11211), (h3, 11212)):
+                servers["%s:%d" % (host, port)] = net.add_server(host, port)
+            hc = hashmod.HashClient(spelling, socket_module=net, allow_unicode_keys=True)
+            placed = {}
+            for k in keys if h1 == "h1" else keys[:120]:
+                before = {n: len(s.cmdlog) for n, s in servers.items()}
+                try:
+                    hc.get(k)
+                except Exception as e:
+                    res.violation("contacted-server-is-not-the-winner:%s" % type(e).__name__,
+                                  "HashClient(%r).get(%r) raised %r" % (spelling, k, e), ("hc", spelling, k))
+                    break
+                hit = [n for n, s in servers.items() if len(s.cmdlog) > before[n]]
+                placed[k] = hit
+                exp = refs.rendezvous_ref(list(servers), k)
+                res.count("contacts_vs_rule")
+                if exp is not NotImplemented and hit != [exp]:
+                    res.violation("contacted-server-is-not-the-winner",
+                                  "HashClient(%r).get(%r) contacted %r, rule says %r" % (spelling, k, hit, exp), ("hc", spelling, k))
+            results.append(placed)
+            res.case(("hc", repr(spelling)))
+        for sp, r in zip(spell_sets[1:], results[1:]):
+            diff = [k for k in r if k in results[0] and r[k] != results[0][k]]
+            if diff:
+                res.violation("spelling-dependent-placement", "spelling %r places %r on %r, tuples place it on %r"
+                              % (sp, diff[0], r[diff[0]], results[0][diff[0]]), ("hc-spelling", sp, diff[0]))
     # IPv6 literals: the node is still named '<host>:<port>' (what other rendezvous implementations are given)
     v6 = [("::1", 11211), ("2001:db8::2", 11211), ("fe80::3", 11212), ("h4", 11211)]
     v6_results = []
@@ -405,6 +413,37 @@ def check_balance(res, rendezvous, nodes, keys):
         res.maximum("max_share_over_mean_x1000", int(1000 * c / mean))
         if not (0.5 * mean <= c <= 1.5 * mean):
             res.violation("unbalanced", "node %r got %d of %d keys (mean %.0f) among %r" % (n, c, len(keys), mean, nodes), ("balance", nodes))
+
+
+def check_seeds(res, rendezvous, keys):
+    """several hashers over the same node names in one process - different seeds, falsy node objects - used alternately:
+    each one follows the rule for its own seed and nodes (anything memoised per node name or per prefix across hashers,
+    or a test for 'no winner yet' that a falsy node fails, shows here)"""
+    nodes = ["a:1", "b:1", "c:1", "d:1"]
+    seeds = [0, 1, 0xDEADBEEF, 0xFFFFFFFF]
+    hs = [rendezvous.RendezvousHash(nodes=list(nodes), seed=sd) for sd in seeds]
+    for rnd in range(2):
+        for k in keys[:150]:
+            for sd, h in (list(zip(seeds, hs)) if rnd == 0 else list(zip(seeds, hs))[::-1]):
+                res.count("placements_vs_reference")
+                got, want = h.get_node(k), refs.rendezvous_ref(nodes, k, seed=sd)
+                if want is not NotImplemented and got != want:
+                    res.violation("differs-from-published-rule:seeded-hashers-side-by-side",
+                                  "RendezvousHash(seed=%#x) next to hashers with other seeds: get_node(%r) -> %r, rule -> %r" % (sd, k, got, want),
+                                  ("seeds", k, sd))
+                    return
+    for falsy_nodes in ([0, 1, 2, 3], ["", "a", "b"], [0, "", "x:1"]):
+        h = rendezvous.RendezvousHash()
+        for nd in falsy_nodes:
+            h.add_node(nd)
+        for k in keys[:200]:
+            res.count("placements_vs_reference")
+            got, want = h.get_node(k), refs.rendezvous_ref(falsy_nodes, k)
+            if want is not NotImplemented and (got != want or type(got) is not type(want)):
+                res.violation("differs-from-published-rule:falsy-node", "nodes %r: get_node(%r) -> %r, rule -> %r" % (falsy_nodes, k, got, want),
+                              ("falsy-nodes", tuple(falsy_nodes), k))
+                return
+    res.case(("seeds-and-falsy-nodes",))
 
 
 def check_threads(res, rendezvous, tier):
@@ -560,6 +599,9 @@ def shard(tier, seed, idx, n):
     work += 1
     if work % n == idx:
         check_threads(res, rendezvous, tier)
+    work += 1
+    if work % n == idx:
+        check_seeds(res, rendezvous, [k for k in keys[:400]])
     res.extra["exhaustive"] = True
     res.extra["exhaustive_part"] = "all permutations of node sets up to %d nodes; all add/remove histories up to length %d" % (
         (5, 4) if tier == "quick" else (6, 5))
